@@ -55,15 +55,16 @@ let string_of_z (x : z) : string =
 let int_of_z (x : z) : int =
   match x with Z0 -> 0 | Zpos p -> int_of_pos p | Zneg p -> - (int_of_pos p)
 
+(* tail-recursive throughout: a record may hold millions of words *)
 let split_ws (s : string) : string list =
-  Stdlib.List.filter (fun t -> t <> "") (String.split_on_char ' ' s)
+  Stdlib.List.rev (Stdlib.List.rev (Stdlib.List.filter (fun t -> t <> "") (String.split_on_char ' ' s)))
 
 let parse_ints (s : string) : z list =
-  Stdlib.List.map (fun t ->
-      if String.length t <= 18 then z_of_int (int_of_string t) else z_of_i64 (Int64.of_string t)) (split_ws s)
+  Stdlib.List.rev (Stdlib.List.rev_map (fun t ->
+      if String.length t <= 18 then z_of_int (int_of_string t) else z_of_i64 (Int64.of_string t)) (split_ws s))
 
 let show_ints (l : z list) : string =
-  String.concat " " (Stdlib.List.map string_of_z l)
+  String.concat " " (Stdlib.List.rev (Stdlib.List.rev_map string_of_z l))
 
 let self_test () =
   let samples = [0; 1; -1; 2; 255; -256; 1 lsl 40; -(1 lsl 40) + 7; max_int / 2; - (max_int / 2)] in
